@@ -36,9 +36,9 @@ func genTunnel(t *rapid.T) Round {
 	r := Round{Comp: "client-tunnel", P: map[string]int{}}
 	r.Closers = rapid.SampledFrom([]int{2, 2, 2, 3, 3, 4, 5, 6, 8}).Draw(t, "closers")
 	r.Paths = drawPaths(t, tunnelPaths, 3)
-	r.P["variant"] = rapid.IntRange(0, 1).Draw(t, "role")      // 0 listen (notifies peer), 1 target
+	r.P["variant"] = rapid.IntRange(0, 1).Draw(t, "role") // 0 listen (notifies peer), 1 target
 	r.P["bytes"] = rapid.SampledFrom([]int{0, 1, 700, 40000}).Draw(t, "bytes")
-	r.P["reasons"] = rapid.IntRange(0, 3).Draw(t, "reasons")   // 0: all closers use distinct reasons, 1: all Normal, 2: all PeerClosed, 3: via manager.CloseTunnel
+	r.P["reasons"] = rapid.IntRange(0, 3).Draw(t, "reasons") // 0: all closers use distinct reasons, 1: all Normal, 2: all PeerClosed, 3: via manager.CloseTunnel
 	r.P["udp"] = 0
 	return r
 }
